@@ -219,6 +219,18 @@ int main(int argc, char ** argv)
                   bxdecay0::event_reader * rdp = nullptr;
                   if (sessions % 3 == 1) {
                     if (reused.is_configured()) reused.reset_configuration();
+                    if (sessions % 2 == 1 && !files.empty()) {
+                      // now and then the object first sees a configuration that raises half-way (the second file does not exist and the
+                      // start index lies beyond the first file): the valid configuration that follows must behave as on a fresh object
+                      bxdecay0::event_reader::config_type bad;
+                      bad.event_files = {files[0], dir + "/does-not-exist.d0t", files[0], files[0]};
+                      bad.start_event = 1000000;
+                      try {
+                        reused.set_configuration(bad);
+                      } catch (std::exception &) {
+                      }
+                      if (reused.is_configured()) reused.reset_configuration();
+                    }
                     reused.set_configuration(cfg);
                     rdp = &reused;
                     classes.insert(cls + "/reused-reader");
